@@ -447,6 +447,11 @@ def exec_cases(item):
                                                "table", res, got, error=err))
                 out["calls"] += 1
                 out["rejected"] += got["oc"] != "ok"
+                # no verdict: the codon named in the message is the first missing one (Codon!FirstMissing)
+                if inp[1] in variants.get("missing", {}) and got["oc"] != "ok":
+                    w = "".join(variants["missing"][inp[1]])
+                    out.setdefault("diag", []).append(
+                        f"constructor variant {inp[1]}: message {'names' if repr(w) in (err or '') else 'does not name'} the first missing codon {w}")
             else:
                 raise ValueError(f"family {fam}")
     return out
@@ -1076,8 +1081,9 @@ def _report(ctx, traces, mms, stage):
         names = FLAG_NAMES[e["op"]]
         if not flags[0]:
             raise RuntimeError(f"X01 {stage}: generated input outside its domain: {json.dumps(_brief_event(e))[:600]}")
+        oc_differs = e["op"] in ("make", "translate", "lookup") and not flags[names.index("oc")]
         for name, ok in zip(names[1:], flags[1:]):
-            if ok:
+            if ok or (oc_differs and name != "oc"):       # a different outcome: the values differ as a consequence
                 continue
             obs = e["obs"]
             rec = {"stage": stage, "kind": "event", "op": e["op"], "field": name,
@@ -1268,6 +1274,11 @@ def run(ctx):
         ncalls += r["calls"]
         nrej += r["rejected"]
         nok += r["ok"]
+    diag = sorted({x for r in res_of("cases") for x in r.get("diag", ())})
+    ctx.cov["s2_diag_no_verdict"] = diag
+    for x in diag:
+        if "does not name" in x:
+            ctx.note(x)
     ctx.cov["s2_cases_per_family"] = fams
     ctx.cov["s2_refusals"] = nrej
     ctx.log(f"S2: {ncases} cases of {sorted(fams)} ({nrej} refusals, {len(text_of) - 1} synthetic table files)")
